@@ -5,6 +5,11 @@
 // constants.  The C13 lost-update theorem (Proofs/Interleave.v, Props/C13.v) is proved about these terms, so a
 // change of the Go source changes what is proved (or breaks the proof) on the next run.
 //
+// It also translates the COMPOUND methods Tag, ChannelCanStop, ChannelCanStart and SetChannel(e)
+// (e = true and e = false) into decision trees over their atomic calls, in source order, with the
+// getters they call inlined (type prog of Model/Interleave.v: PRet / PTest mask / PCall set arg);
+// the concurrent channel-protocol theorems are about those terms.
+//
 // The translator is deliberately narrow: whatever it does not recognise becomes `Unknown`, for
 // which no theorem applies.  It exits non-zero only when the file cannot be read or parsed.
 package main
@@ -464,6 +469,242 @@ func collectConsts(file *ast.File) (names []string, vals map[string]uint64) {
 	return
 }
 
+// ---------------------------------------------------------------- compound methods -> prog
+
+type ctr struct {
+	found    map[string]*ast.FuncDecl
+	consts   map[string]uint64
+	atomicPk string
+	depth    int
+}
+
+type cenv struct {
+	recv      string
+	boolParam string
+	boolVal   bool
+}
+
+func recvName(d *ast.FuncDecl) string {
+	if d.Recv == nil || len(d.Recv.List) != 1 || len(d.Recv.List[0].Names) != 1 {
+		bail("receiver of %s", d.Name.Name)
+	}
+	return d.Recv.List[0].Names[0].Name
+}
+
+// constMask evaluates a constant uint32 expression made of the state* constants, literals, | and <<
+func (c *ctr) constMask(e ast.Expr) uint64 {
+	v, ok := constEval(e, 0, c.consts)
+	if !ok || v > 0xFFFFFFFF {
+		bail("mask is not a constant")
+	}
+	return v
+}
+
+// isLoad reports whether e is atomic.LoadUint32((*uint32)(recv))
+func (c *ctr) isLoad(e ast.Expr, ev cenv) bool {
+	f := &fn{recv: ev.recv, atomicPk: c.atomicPk}
+	name, call := f.atomicCall(e)
+	return name == "LoadUint32" && len(call.Args) == 1 && f.isPtr(call.Args[0])
+}
+
+// maskTest recognises  load & mask  (either operand order)
+func (c *ctr) maskTest(e ast.Expr, ev cenv) (uint64, bool) {
+	for {
+		p, ok := e.(*ast.ParenExpr)
+		if !ok {
+			break
+		}
+		e = p.X
+	}
+	b, ok := e.(*ast.BinaryExpr)
+	if !ok || b.Op != token.AND {
+		return 0, false
+	}
+	if c.isLoad(b.X, ev) {
+		return c.constMask(b.Y), true
+	}
+	if c.isLoad(b.Y, ev) {
+		return c.constMask(b.X), true
+	}
+	return 0, false
+}
+
+func isZero(e ast.Expr) bool {
+	l, ok := e.(*ast.BasicLit)
+	return ok && l.Kind == token.INT && (l.Value == "0" || l.Value == "0x0")
+}
+
+// cond translates a boolean expression with short-circuit evaluation; kt / kf build what follows
+func (c *ctr) cond(e ast.Expr, ev cenv, kt, kf func() string) string {
+	switch x := e.(type) {
+	case *ast.ParenExpr:
+		return c.cond(x.X, ev, kt, kf)
+	case *ast.UnaryExpr:
+		if x.Op == token.NOT {
+			return c.cond(x.X, ev, kf, kt)
+		}
+		bail("unary %s in a condition", x.Op)
+	case *ast.Ident:
+		switch {
+		case x.Name == "true":
+			return kt()
+		case x.Name == "false":
+			return kf()
+		case ev.boolParam != "" && x.Name == ev.boolParam:
+			if ev.boolVal {
+				return kt()
+			}
+			return kf()
+		}
+		bail("identifier %s in a condition", x.Name)
+	case *ast.SelectorExpr:
+		// bugtrack.Enabled: constant false outside the `bugs` build
+		if id, ok := x.X.(*ast.Ident); ok && id.Name == "bugtrack" && x.Sel.Name == "Enabled" {
+			return kf()
+		}
+		bail("selector %s in a condition", exprString(x))
+	case *ast.BinaryExpr:
+		switch x.Op {
+		case token.LOR:
+			return c.cond(x.X, ev, kt, func() string { return c.cond(x.Y, ev, kt, kf) })
+		case token.LAND:
+			return c.cond(x.X, ev, func() string { return c.cond(x.Y, ev, kt, kf) }, kf)
+		case token.NEQ, token.EQL:
+			var m uint64
+			var ok bool
+			if isZero(x.Y) {
+				m, ok = c.maskTest(x.X, ev)
+			} else if isZero(x.X) {
+				m, ok = c.maskTest(x.Y, ev)
+			}
+			if !ok {
+				bail("comparison that is not `load & mask != 0`")
+			}
+			if x.Op == token.NEQ {
+				return fmt.Sprintf("(PTest %d %s %s)", m, kt(), kf())
+			}
+			return fmt.Sprintf("(PTest %d %s %s)", m, kf(), kt())
+		}
+		bail("binary %s in a condition", x.Op)
+	case *ast.CallExpr:
+		// recv.Getter(): inline its body
+		sel, ok := x.Fun.(*ast.SelectorExpr)
+		if !ok || len(x.Args) != 0 {
+			bail("call of %s in a condition", exprString(x.Fun))
+		}
+		id, ok := sel.X.(*ast.Ident)
+		if !ok || id.Name != ev.recv {
+			bail("call of %s in a condition", exprString(x.Fun))
+		}
+		d, ok := c.found[sel.Sel.Name]
+		if !ok || d.Body == nil {
+			bail("unknown method %s", sel.Sel.Name)
+		}
+		if d.Type.Params != nil && len(d.Type.Params.List) != 0 {
+			bail("getter %s takes parameters", sel.Sel.Name)
+		}
+		c.depth++
+		if c.depth > 8 {
+			bail("calls nested too deeply")
+		}
+		r := c.stmts(d.Body.List, cenv{recv: recvName(d)}, func(b bool) string {
+			if b {
+				return kt()
+			}
+			return kf()
+		}, func() string { bail("getter %s does not return", sel.Sel.Name); return "" })
+		c.depth--
+		return r
+	}
+	bail("condition %T", e)
+	return ""
+}
+
+// stmts translates a statement list; kret builds what follows `return <bool>`, kfall what follows the end of the list
+func (c *ctr) stmts(list []ast.Stmt, ev cenv, kret func(bool) string, kfall func() string) string {
+	if len(list) == 0 {
+		return kfall()
+	}
+	rest := func() string { return c.stmts(list[1:], ev, kret, kfall) }
+	switch x := list[0].(type) {
+	case *ast.IfStmt:
+		if x.Init != nil {
+			bail("if with an init statement")
+		}
+		then := func() string { return c.stmts(x.Body.List, ev, kret, rest) }
+		els := rest
+		if x.Else != nil {
+			switch e := x.Else.(type) {
+			case *ast.BlockStmt:
+				els = func() string { return c.stmts(e.List, ev, kret, rest) }
+			case *ast.IfStmt:
+				els = func() string { return c.stmts([]ast.Stmt{e}, ev, kret, rest) }
+			default:
+				bail("else %T", x.Else)
+			}
+		}
+		return c.cond(x.Cond, ev, then, els)
+	case *ast.ReturnStmt:
+		if len(x.Results) != 1 {
+			bail("return without exactly one value")
+		}
+		return c.cond(x.Results[0], ev, func() string { return kret(true) }, func() string { return kret(false) })
+	case *ast.ExprStmt:
+		call, ok := x.X.(*ast.CallExpr)
+		if !ok {
+			bail("statement %T", x.X)
+		}
+		sel, ok := call.Fun.(*ast.SelectorExpr)
+		if !ok {
+			bail("statement calls %s", exprString(call.Fun))
+		}
+		id, ok := sel.X.(*ast.Ident)
+		if ok && id.Name == "bugtrack" { // bugtrack.Track(...): only reached under bugtrack.Enabled
+			bail("bugtrack call outside `if bugtrack.Enabled`")
+		}
+		if !ok || id.Name != ev.recv || len(call.Args) != 1 || (sel.Sel.Name != "Set" && sel.Sel.Name != "Unset") {
+			bail("statement calls %s", exprString(call.Fun))
+		}
+		return fmt.Sprintf("(PCall %t %d %s)", sel.Sel.Name == "Set", c.constMask(call.Args[0]), rest())
+	}
+	bail("statement %T", list[0])
+	return ""
+}
+
+// compound translates one bool-returning method; param = "" or the name of its bool parameter fixed to val
+func (c *ctr) compound(name string, val bool) (term, note string) {
+	defer func() {
+		if x := recover(); x != nil {
+			if fl, ok := x.(fail); ok {
+				term, note = "PUnknown", fl.why
+				return
+			}
+			panic(x)
+		}
+	}()
+	d, ok := c.found[name]
+	if !ok || d.Body == nil {
+		bail("method not found")
+	}
+	ev := cenv{recv: recvName(d)}
+	if d.Type.Params != nil && len(d.Type.Params.List) > 0 {
+		p := d.Type.Params.List
+		if len(p) != 1 || len(p[0].Names) != 1 {
+			bail("parameters")
+		}
+		if id, ok := p[0].Type.(*ast.Ident); !ok || id.Name != "bool" {
+			bail("parameter type")
+		}
+		ev.boolParam, ev.boolVal = p[0].Names[0].Name, val
+	}
+	if d.Type.Results == nil || len(d.Type.Results.List) != 1 {
+		bail("result")
+	}
+	c.depth = 0
+	return c.stmts(d.Body.List, ev, func(b bool) string { return fmt.Sprintf("(PRet %t)", b) },
+		func() string { bail("control reaches the end without a return"); return "" }), ""
+}
+
 // ---------------------------------------------------------------- main
 
 func main() {
@@ -504,7 +745,7 @@ func main() {
 	}
 	var b bytes.Buffer
 	b.WriteString("(* GENERATED on every run by tools/atomics2v from c2/state.go of the tree under check -- do not edit.\n")
-	b.WriteString("   The atomic shape of the three mutators of the state word, and the state bit constants. *)\n")
+	b.WriteString("   The atomic shape of the three mutators of the state word, the compound methods, and the state bit constants. *)\n")
 	b.WriteString("From XMT Require Import Base.Prelude Model.Interleave.\n\n")
 	for _, n := range want {
 		lower := strings.ToLower(n)
@@ -524,6 +765,25 @@ func main() {
 		fmt.Fprintf(&b, "Definition gen_%s_argbits : Z := %d.\n\n", lower, r.width)
 		fmt.Fprintf(os.Stderr, "atomics2v: %-7s %-9s [%s]%s\n", n, r.shape, strings.Join(r.ops, "; "), map[bool]string{true: "  (" + r.note + ")", false: ""}[r.note != ""])
 	}
+	// compound methods
+	c := &ctr{found: found, consts: consts, atomicPk: atomicPk}
+	b.WriteString("(* the compound methods as decision trees over their atomic calls (getters and e inlined) *)\n")
+	emit := func(def, name string, val bool) string {
+		t, note := "PUnknown", "sync/atomic is not imported"
+		if atomicPk != "" {
+			t, note = c.compound(name, val)
+		}
+		if note != "" {
+			fmt.Fprintf(&b, "(* %s: not recognised: %s *)\n", def, strings.NewReplacer("(*", "( *", "*)", "* )").Replace(note))
+		}
+		fmt.Fprintf(os.Stderr, "atomics2v: %-22s %s%s\n", def, t, map[bool]string{true: "  (" + note + ")", false: ""}[note != ""])
+		return t
+	}
+	fmt.Fprintf(&b, "Definition gen_tag : prog := %s.\n", emit("Tag", "Tag", false))
+	fmt.Fprintf(&b, "Definition gen_channelcanstop : prog := %s.\n", emit("ChannelCanStop", "ChannelCanStop", false))
+	fmt.Fprintf(&b, "Definition gen_channelcanstart : prog := %s.\n", emit("ChannelCanStart", "ChannelCanStart", false))
+	on, off := emit("SetChannel(true)", "SetChannel", true), emit("SetChannel(false)", "SetChannel", false)
+	fmt.Fprintf(&b, "Definition gen_setchannel (e : bool) : prog :=\n  if e then %s\n  else %s.\n\n", on, off)
 	b.WriteString("(* constants of c2/state.go in declaration order *)\n")
 	var vs []string
 	for _, n := range names {
